@@ -258,7 +258,7 @@ func (w *world) foreignParentRef(r *rng.R, routeNS string) gatewayv1.ParentRefer
 		// names one of OUR gateways but is not a Gateway reference
 		g := rng.Pick(r, w.ownGws)
 		pr := p.ParentRef(g.NS, g.Name, "")
-		switch r.Intn(4) {
+		switch v := r.Intn(9); v {
 		case 0: // kind alone differs
 			pr.Kind = ptr(gatewayv1.Kind("Service"))
 		case 1: // GAMMA style Service parent
@@ -266,9 +266,25 @@ func (w *world) foreignParentRef(r *rng.R, routeNS string) gatewayv1.ParentRefer
 			pr.Group = ptr(gatewayv1.Group(""))
 		case 2: // group alone differs
 			pr.Group = ptr(gatewayv1.Group("networking.example.io"))
-		default:
+		case 3:
 			pr.Kind = ptr(gatewayv1.Kind("Gateway"))
 			pr.Group = ptr(gatewayv1.Group("gateway.example.io"))
+		case 4: // explicit EMPTY group = the core API group, not the Gateway API: kind unset
+			pr.Group = ptr(gatewayv1.Group(""))
+			w.tags["x-parent-group-empty"]++
+		case 5: // explicit empty group, kind Gateway
+			pr.Kind = ptr(gatewayv1.Kind("Gateway"))
+			pr.Group = ptr(gatewayv1.Group(""))
+			w.tags["x-parent-group-empty"]++
+		case 6:
+			pr.Kind = ptr(gatewayv1.Kind("Gateway"))
+			pr.Group = ptr(gatewayv1.Group("core"))
+			w.tags["x-parent-group-core"]++
+		case 7:
+			pr.Group = ptr(gatewayv1.Group("example.com"))
+		default:
+			pr.Kind = ptr(gatewayv1.Kind("Service"))
+			pr.Group = ptr(gatewayv1.Group("core"))
 		}
 		w.tags["x-parent-kind-mismatch"]++
 		return pr
@@ -498,15 +514,49 @@ func (w *world) GenX(r *rng.R, opts p.Options) []client.Object {
 			w.tags["x-policy-foreign-svc"]++
 		}
 	}
-	if r.Chance(30, 100) {
-		btp := &v1alpha3.BackendTLSPolicy{ObjectMeta: p.Meta(rng.Pick(r, w.ns), "xbtp", r.Intn(4))}
+	// BackendTLSPolicies that target a Service none of our routes names: valid ones and one for each way
+	// validateBackendTLSPolicy rejects a policy (graph processing validates EVERY policy of the cluster)
+	nb := r.Intn(3)
+	for i := 0; i < nb; i++ {
+		btp := &v1alpha3.BackendTLSPolicy{ObjectMeta: p.Meta(rng.Pick(r, w.ns), fmt.Sprintf("xbtp%d", i), r.Intn(4))}
 		btp.Spec.TargetRefs = []v1alpha2.LocalPolicyTargetReferenceWithSectionName{{
-			LocalPolicyTargetReference: v1alpha2.LocalPolicyTargetReference{Kind: "Service", Name: "xsvc0"},
+			LocalPolicyTargetReference: v1alpha2.LocalPolicyTargetReference{Kind: "Service", Name: gatewayv1.ObjectName(rng.Pick(r, []string{"xsvc0", "xsvc1"}))},
 		}}
-		btp.Spec.Validation.Hostname = "x.example.com"
-		btp.Spec.Validation.WellKnownCACertificates = ptr(v1alpha3.WellKnownCACertificatesSystem)
+		v := &btp.Spec.Validation
+		v.Hostname = "x.example.com"
+		cm := func(group, kind, name string) gatewayv1.LocalObjectReference {
+			return gatewayv1.LocalObjectReference{Group: gatewayv1.Group(group), Kind: gatewayv1.Kind(kind), Name: gatewayv1.ObjectName(name)}
+		}
+		variant := r.Intn(10)
+		switch variant {
+		case 0: // valid
+			v.WellKnownCACertificates = ptr(v1alpha3.WellKnownCACertificatesSystem)
+		case 1: // Secret CA reference (supported by other implementations)
+			v.CACertificateRefs = []gatewayv1.LocalObjectReference{cm("", "Secret", "ca")}
+		case 2: // more than one CA reference
+			v.CACertificateRefs = []gatewayv1.LocalObjectReference{cm("", "ConfigMap", "ca-bundle"), cm("", "ConfigMap", "ca-bundle-2")}
+		case 3: // ConfigMap that does not exist
+			v.CACertificateRefs = []gatewayv1.LocalObjectReference{cm("", "ConfigMap", "no-such-cm")}
+		case 4: // CA reference of another group
+			v.CACertificateRefs = []gatewayv1.LocalObjectReference{cm("example.com", "ConfigMap", "ca-bundle")}
+		case 5: // hostname NGF rejects
+			v.Hostname = "Bad_Host!.example.com"
+			v.WellKnownCACertificates = ptr(v1alpha3.WellKnownCACertificatesSystem)
+		case 6: // both kinds of CA
+			v.CACertificateRefs = []gatewayv1.LocalObjectReference{cm("", "ConfigMap", "ca-bundle")}
+			v.WellKnownCACertificates = ptr(v1alpha3.WellKnownCACertificatesSystem)
+		case 7: // neither
+		case 8: // unsupported well-known set
+			v.WellKnownCACertificates = ptr(v1alpha3.WellKnownCACertificatesType("Mozilla"))
+		default: // the ConfigMap of the base scenario's policy, where there is one (valid then)
+			v.CACertificateRefs = []gatewayv1.LocalObjectReference{cm("core", "ConfigMap", "ca-bundle")}
+		}
+		if r.Chance(30, 100) {
+			btp.Status.Ancestors = []v1alpha2.PolicyAncestorStatus{foreignAncestorStatus(r, btp.Namespace, "foreign-gw")}
+		}
 		x = append(x, btp)
 		w.tags["x-btp"]++
+		w.tags[fmt.Sprintf("x-btp-variant-%d", variant)]++
 	}
 	_ = opts
 	return x
